@@ -190,7 +190,7 @@ func (s *Server) URL() string { return s.srv.URL }
 func (s *Server) Base(scope string) string { return s.srv.URL + "/" + scope }
 
 func (s *Server) Register(scope string, sc *Script) { s.scripts.Store(scope, sc) }
-func (s *Server) Unregister(scope string)          { s.scripts.Delete(scope) }
+func (s *Server) Unregister(scope string)           { s.scripts.Delete(scope) }
 
 // Digest is a function of everything the remote system can depend on.
 func Digest(r *http.Request, rest string, body []byte) string {
